@@ -15,7 +15,9 @@ from . import env
 from .proj import enc
 
 OPS_OF = {"C01": {"in_tz"}, "C02": {"create", "set"}, "C03": {"add_fixed"}, "C04": {"add_cal"}, "C12": {"start_of", "end_of"},
-          "C14": {"copy"}, "C16": {"next", "previous", "first_of", "last_of"}}
+          "C14": {"copy"}, "C16": {"next", "previous", "first_of", "last_of"}, "C05": {"iv_len"}, "C06": {"iv_comp"},
+          "C19": {"range"}}
+QUERIES = {"iv_len", "iv_comp", "range"}
 
 
 def simulate(seed, num, depth, workdir, tag):
@@ -73,6 +75,15 @@ def replay(ctx, num=None, depth=8):
             if src != "-" and src not in regs:
                 break                         # the real history diverged earlier (an exception): stop this behaviour
             pre = [regs[src]] if src != "-" else None
+            if op in QUERIES:
+                s2 = a.pop("src2")
+                if s2 not in regs:
+                    break
+                stats["gr_steps"] += 1
+                if op in mine:          # a query changes nothing: executed only for the property that judges it
+                    ctx.emit(op, a, pre_objs=[regs[src], regs[s2]], log=True)
+                    stats["gr_steps_logged"] += 1
+                continue
             stats["gr_steps"] += 1
             res = ctx.emit(op, a, pre_objs=pre if pre is not None else [], log=op in mine)
             if op in mine:
